@@ -18,6 +18,7 @@ import re
 import langpipe
 import printer
 import vlib
+from props.c01 import SPECIAL_INPUTS
 
 JOBS = {
     "quick": [
@@ -48,6 +49,20 @@ JOBS = {
 }
 SPLITS = {"quick": [[0, 1, 37, 100, 100]],
           "thorough": [[0], [1], [2], [5], [100], [1000], [100, 100], [37, 200, 201], [999, 1000, 1001], [48000]]}
+
+
+# programs whose state cells take special values (the inputs come from C01's list of special samples)
+SPECIAL_STATE = {
+    "self_in": "fn acc(x){ self * 0.5 + x }\nfn dsp(x){ acc(x) }\n",
+    "mem_in": "fn dsp(x){ mem(x) * 2.0 + x }\n",
+    "delay_in": "fn dsp(x){ delay(4, x, 2) + delay(3, x * 0.5, 1) }\n",
+    "pair_self": "fn p(x){\n  let (a, b) = self\n  (a + x, b * 2.0 + a)\n}\nfn dsp(x){\n  let (a, b) = p(x)\n  a + b\n}\n",
+    "self_sqrt": "fn f(){ sqrt(0.5 - self) }\nfn dsp(){ f() }\n",
+    "self_div": "fn g(x){ 1.0 / (self - x) }\nfn dsp(x){ g(x) }\n",
+    "mem_log": "fn dsp(x){ mem(log(x)) + mem(0.0 - x) }\n",
+    "neg_zero": "fn z(x){ 0.0 - self * x }\nfn dsp(x){ 1.0 / z(x) }\n",
+    "self_grow": "fn up(){ (self + 1.0) * 1000000000000.0 * (self + 1.0) }\nfn dsp(){ up() }\n",
+}
 
 
 def runtime_cfg(name, consts):
@@ -187,6 +202,47 @@ def run(tier):
             # a finding is a (source, runtime) pair: the same file failing on the other runtime is another violation
             meta[rrid] = (name, dict(case, backend=be), vlib.canon_key(req["src"] + "|" + be))
             nhist += 1
+    # special values in the state cells: self / mem / delay / tuple-valued self fed from dsp's input (NaN, infinities,
+    # signed zeros, denormals, huge values) or from computations that leave the finite numbers; every split point
+    n_sp = 14
+    sreqs = []
+    for name, src in SPECIAL_STATE.items():
+        for rot in range(2 if tier == "quick" else 4):
+            inputs = [[SPECIAL_INPUTS[(t * 5 + rot * 3) % len(SPECIAL_INPUTS)]] for t in range(n_sp)]
+            base = {"src": src, "n": n_sp, "backends": ["vm", "wasm"], "sched": True, "rec": {"words": "digest"},
+                    **({"inputs": inputs} if "dsp(x)" in src else {})}
+            sreqs.append(dict(base, id=f"special:{name}:{rot}|twin"))
+            for split in [[a] for a in range(0, n_sp - 1)] + [[3, 4], [6, 6], [2, 9]]:
+                sreqs.append(dict(base, id=f"special:{name}:{rot}|{split}|swapped", swaps=[{"at": a, "src": src} for a in split]))
+            if "dsp(x)" not in src:
+                break
+    sres = vlib.run_harness("run", sreqs, timeout_per_req=30)
+    sby = {req["id"]: (req, out, crash) for req, out, crash in sres}
+    for rid, (req, out, crash) in sby.items():
+        if not rid.endswith("|swapped"):
+            continue
+        name, split = rid.split("|")[0], rid.split("|")[1]
+        twin = sby[f"{name}|twin"]
+        case = {"src": req["src"], "split": split, "inputs": req.get("inputs"), "name": name}
+        key = vlib.canon_key(req["src"] + "|" + name)
+        if crash or out is None or twin[2] or twin[1] is None:
+            chk.violation(f"runtime process died while hot-swapping {name} at {split}: {crash or twin[2]}\n{req['src']}", case, key=key)
+            continue
+        for be in ("vm", "wasm"):
+            a, b = out[be], twin[1][be]
+            if b.get("status") != "ok" or not b.get("out"):
+                chk.violation(f"{be}: {name} does not run: {b.get('status')} {b.get('msg', '')[:200]}\n{req['src']}", dict(case, backend=be),
+                              key=vlib.canon_key(req["src"] + "|" + be))
+                continue
+            if not all(s_.get("ok") for s_ in a.get("swaps", [])):
+                chk.violation(f"{be}: hot swap of the unchanged source {name} refused: {json.dumps(a.get('swaps'))[:300]}",
+                              dict(case, backend=be), key=vlib.canon_key(req["src"] + "|" + be))
+                continue
+            rrid = f"{rid}|{be}"
+            records.append({"id": rrid, "a": langpipe.side(a), "b": langpipe.side(b), "cmpwords": False})
+            meta[rrid] = (name, dict(case, backend=be), vlib.canon_key(req["src"] + "|" + be))
+            nhist += 1
+    chk.cov["special_state_histories"] = len(sreqs)
     fails = langpipe.validate_lockstep(chk, records, "c06")
     for rrid, f in fails.items():
         name, case, key = meta[rrid]
